@@ -202,6 +202,8 @@ pub fn render(spec: &EnumSpec) -> String {
             p.name = "P".into();
         }
     }
+    // a second, unrelated use_phf enum in the same scope (generated helper items must not collide)
+    o.push_str("#[allow(dead_code)]\n#[derive(Debug, Clone, PartialEq, strum::EnumString)]\n#[strum(use_phf)]\npub enum NeighbourPhf { Qa, #[strum(ascii_case_insensitive)] Qb }\n");
     o.push_str(&render_vidx(spec, "E", "vidx_e"));
     o.push_str(&render_vidx(&p, "P", "vidx_p"));
     let body = r#"fn obs_e<X: core::fmt::Debug>(r: Result<Result<E, X>, String>) -> vf_core::Obs {
